@@ -338,6 +338,7 @@ pub fn cli_generate_after_earlier_run(
     op_text: &str,
     cfg: &SchemaGenConfig,
     earlier: &SchemaGenConfig,
+    model_plugin: bool,
     detail: &Value,
 ) -> Result<(String, String, String), Failure> {
     use crate::cli::{run_cli, Project};
@@ -346,7 +347,10 @@ pub fn cli_generate_after_earlier_run(
     let proj = Project::new(base);
     let schema_glob = if schema_files.iter().any(|f| f.0.ends_with(".json")) { format!("./{}", schema_files[0].0) } else { "./*.graphqls".to_string() };
     let yaml = |c: &SchemaGenConfig| -> String {
-        let y = c.to_config_yaml().replacen("schema: s.graphql\ndocuments: o.graphql", &format!("schema: \"{schema_glob}\"\ndocuments: ./ops.graphql"), 1);
+        let mut y = c.to_config_yaml().replacen("schema: s.graphql\ndocuments: o.graphql", &format!("schema: \"{schema_glob}\"\ndocuments: ./ops.graphql"), 1);
+        if model_plugin {
+            y = y.replacen("  nitrogql:\n", "  nitrogql:\n    plugins:\n      - \"nitrogql:model-plugin\"\n", 1);
+        }
         // (a schema file with runtime code cannot be a .d.ts)
         let out = if c.emit_schema_runtime { "./schema.ts" } else { "./schema.d.ts" };
         format!("{y}      schemaOutput: {out}\n      resolversOutput: ./resolvers.d.ts\n")
